@@ -163,6 +163,23 @@ def r1(prog, rep):
 # ------------------------------------------------------------------------------------------------ R2
 def bit_count_sufficient(n: ast.AST, depth=0) -> (Optional[bool], str):
     """n bits represent 0..2^n-1; need 2^n - 1 >= ub for integer values in [0, ub]."""
+    if depth == 0 and any(isinstance(x, ast.IfExp) and "integer_ub" in norm(x.test) for x in ast.walk(n)):
+        # the sizing quantity is selected by `integer_ub is None`: ub in that case, integer_ub otherwise (the caller's bound of the integer
+        # factor, checked at the call sites by V2); each case is judged with its own quantity standing for `ub`
+        from rules.common import expr_cases
+
+        class _Ren(ast.NodeTransformer):
+            def visit_Name(self, node):
+                return ast.copy_location(ast.Name(id="ub", ctx=node.ctx), node) if node.id == "integer_ub" else node
+        verdicts = []
+        for g_, x in expr_cases(n):
+            x2 = _Ren().visit(ast.parse(norm(x), mode="eval").body)
+            verdicts.append(bit_count_sufficient(x2, depth + 1))
+        if any(v[0] is False for v in verdicts):
+            return False, "; ".join(v[1] for v in verdicts if v[0] is False)
+        if all(v[0] is True for v in verdicts):
+            return True, " / ".join(v[1] for v in verdicts)
+        return None, "a case of the conditional bit count is undecided: " + "; ".join(v[1] for v in verdicts if v[0] is None)
     if isinstance(n, ast.IfExp):
         rb, re_ = bit_count_sufficient(n.body, depth + 1), bit_count_sufficient(n.orelse, depth + 1)
         guarded_const = lambda e: isinstance(e, ast.Constant) and isinstance(e.value, int) and e.value >= 1 and "ub" in norm(n.test)
